@@ -24,7 +24,8 @@ const (
 	AVParam           // a parameter of an enclosing API function (user-supplied)
 	AVSub             // the subscription returned by a subscribe site
 	AVNil
-	AVCtx0 // the SC's subscriber context
+	AVCtx0      // the SC's subscriber context
+	AVComposite // a subscription created by NewSubscription(...)
 )
 
 // AV is an abstract value for function-, observer- and subscription-typed expressions.
@@ -66,6 +67,8 @@ func (a *AV) id() string {
 		return fmt.Sprintf("sub#%d", a.Site.ID)
 	case AVNil:
 		return "nil"
+	case AVComposite:
+		return fmt.Sprintf("comp@%d", a.Expr.Pos())
 	}
 	return "?"
 }
@@ -132,6 +135,13 @@ type Ctx struct {
 	Awaited    bool      // KSrc: the subscription is Wait()ed in the parent context after creation
 	Recovered  bool      // KGo: started through recoverUnhandledError / deferred recover
 	Via        []string  // inlining path
+	// KTeardown: who runs this teardown. Root: returned by the subscribe closure itself.
+	// Otherwise OwnerAV/OwnerExpr is the subscription it was Add()ed to, or OwnerLit is the
+	// literal returned by an inlined helper (matched with the Add that receives it).
+	Root      bool
+	OwnerAV   *AV
+	OwnerExpr ast.Expr
+	OwnerLit  *ast.FuncLit
 }
 
 func (c *Ctx) String() string {
@@ -232,6 +242,16 @@ type BlockSite struct {
 	What string // wait, sleep, recv, send, select, range-chan
 	Recv *AV    // for wait
 	Expr ast.Expr
+	Chans []ast.Expr // select: channel expressions of the communication clauses
+	Forever bool     // loop without condition
+}
+
+// Store is an assignment of a subscription value into a variable, element or field.
+type Store struct {
+	Rec
+	Node ast.Node
+	LHS  ast.Expr
+	Val  *AV
 }
 
 // SubOp is a call of a Subscription method (Add, AddUnsubscribable, Unsubscribe, Wait, IsClosed)
@@ -373,6 +393,9 @@ func (w *walker) node(n ast.Node, fr frame) {
 		}
 	case *ast.ForStmt:
 		w.node(x.Init, fr)
+		if x.Cond == nil {
+			w.sc.Blocks = append(w.sc.Blocks, &BlockSite{Rec: w.rec(x, fr), Node: x, What: "loop", Forever: true})
+		}
 		f2 := fr
 		f2.loop++
 		w.node(x.Cond, f2)
@@ -405,7 +428,15 @@ func (w *walker) node(n ast.Node, fr frame) {
 			}
 		}
 		if !hasDefault {
-			w.sc.Blocks = append(w.sc.Blocks, &BlockSite{Rec: w.rec(x, fr), Node: x, What: "select"})
+			bs := &BlockSite{Rec: w.rec(x, fr), Node: x, What: "select"}
+			for _, c := range x.Body.List {
+				if cc, ok := c.(*ast.CommClause); ok && cc.Comm != nil {
+					if ch := commChan(cc.Comm); ch != nil {
+						bs.Chans = append(bs.Chans, ch)
+					}
+				}
+			}
+			w.sc.Blocks = append(w.sc.Blocks, bs)
 		}
 		f2 := fr
 		for _, c := range x.Body.List {
@@ -439,6 +470,13 @@ func (w *walker) node(n ast.Node, fr frame) {
 			}
 			w.node(r, fr)
 		}
+		if len(x.Lhs) == len(x.Rhs) {
+			for i, r := range x.Rhs {
+				if v := w.eval(r, fr); v.Kind == AVSub || v.Kind == AVComposite {
+					w.sc.Stores = append(w.sc.Stores, &Store{Rec: w.rec(x, fr), Node: x, LHS: x.Lhs[i], Val: v})
+				}
+			}
+		}
 	case *ast.ValueSpec:
 		for _, r := range x.Values {
 			if _, ok := ast.Unparen(r).(*ast.FuncLit); ok {
@@ -449,6 +487,25 @@ func (w *walker) node(n ast.Node, fr frame) {
 	default:
 		children(n, func(c ast.Node) { w.node(c, fr) })
 	}
+}
+
+// commChan returns the channel expression of a select communication clause.
+func commChan(s ast.Stmt) ast.Expr {
+	switch x := s.(type) {
+	case *ast.SendStmt:
+		return x.Chan
+	case *ast.ExprStmt:
+		if u, ok := ast.Unparen(x.X).(*ast.UnaryExpr); ok && u.Op == token.ARROW {
+			return u.X
+		}
+	case *ast.AssignStmt:
+		if len(x.Rhs) == 1 {
+			if u, ok := ast.Unparen(x.Rhs[0]).(*ast.UnaryExpr); ok && u.Op == token.ARROW {
+				return u.X
+			}
+		}
+	}
+	return nil
 }
 
 func (w *walker) commStmt(s ast.Stmt, fr frame) {
@@ -501,6 +558,11 @@ func (w *walker) ret(x *ast.ReturnStmt, fr frame) {
 	tr := &TeardownRet{Rec: w.rec(x, fr), Expr: e, Val: av}
 	if av.Kind == AVFunc {
 		tr.Body = w.newCtx(KTeardown, fr.ctx, fr.slot, x, tr.BasePos, fr.loop > 0, fr.via)
+		if fr.fnNode == ast.Node(w.sc.Lit) {
+			tr.Body.Root = true
+		} else {
+			tr.Body.OwnerLit = av.Lit
+		}
 		w.enterFunc(av, nil, x, frame{ctx: tr.Body, slot: -1, depth: fr.depth, via: fr.via, stack: fr.stack})
 	}
 	w.sc.Teardowns = append(w.sc.Teardowns, tr)
@@ -1047,6 +1109,7 @@ func (w *walker) subscriptionCall(call *ast.CallExpr, name string, fr frame) {
 			_, argIsCall := ast.Unparen(a).(*ast.CallExpr) // an inlined helper's return already created the teardown context
 			if op.Arg.Kind == AVFunc && !argIsCall {
 				c := w.newCtx(KTeardown, fr.ctx, fr.slot, call, op.BasePos, fr.loop > 0, fr.via)
+				c.OwnerAV, c.OwnerExpr = recv, sel.X
 				w.enterFunc(op.Arg, nil, call, frame{ctx: c, slot: -1, depth: fr.depth, via: fr.via, stack: fr.stack})
 			}
 		}
@@ -1188,6 +1251,9 @@ func (w *walker) evalIn(e ast.Expr, env *Env, depth int) *AV {
 		}
 		if _, ok := m.Obj.SubscriberCtors[callee]; ok && len(x.Args) >= 1 {
 			return w.evalIn(x.Args[0], env, depth+1)
+		}
+		if callee == m.Obj.NewSubscription {
+			return &AV{Kind: AVComposite, Expr: x}
 		}
 		// closure-returning helper: func h(dest, ...) func(...) { return func(...) {...} }
 		if d := m.Decls[callee]; d != nil && d.Decl.Body != nil {
